@@ -277,6 +277,39 @@ static void sig_suite(const Key &k) {
 	}
 }
 
+
+// what VerifyData itself hashes (the verifier builds the trailer from the parsed packet), versions 3, 4 and 5
+static void verify_hash_records() {
+	gcry_mpi_t p = NULL, q = NULL, g = NULL, y = NULL, r = NULL, s2 = NULL;
+	{ oct b = rnd_oct(128); b[0] |= 0x80; gcry_mpi_scan(&p, GCRYMPI_FMT_USG, b.data(), b.size(), NULL); b = rnd_oct(20); b[0] |= 0x80; gcry_mpi_scan(&q, GCRYMPI_FMT_USG, b.data(), b.size(), NULL);
+	  b = rnd_oct(127); gcry_mpi_scan(&g, GCRYMPI_FMT_USG, b.data(), b.size(), NULL); b = rnd_oct(127); gcry_mpi_scan(&y, GCRYMPI_FMT_USG, b.data(), b.size(), NULL);
+	  b = rnd_oct(19); b[0] |= 1; gcry_mpi_scan(&r, GCRYMPI_FMT_USG, b.data(), b.size(), NULL); b = rnd_oct(19); b[0] |= 1; gcry_mpi_scan(&s2, GCRYMPI_FMT_USG, b.data(), b.size(), NULL); }
+	gcry_sexp_t key = NULL; size_t eo = 0; gcry_sexp_build(&key, &eo, "(public-key (dsa (p %M) (q %M) (g %M) (y %M)))", p, q, g, y);
+	for (int k = 0; k < (T ? 600 : 150); k++) {
+		int version = 3 + gen().below(3), type = gen().below(2), ha = HASHES[gen().below(3)];
+		uint32_t ct = 1 + gen().below(1UL << 31); oct data = type ? gen_text(gen().below(80)) : rnd_oct(gen().below(120)), issuer = rnd_oct(version == 5 ? 32 : 8), left = rnd_oct(2), pkt, hashed;
+		if (version == 3) {
+			oct b; b.push_back(3); b.push_back(5); b.push_back(type); oct tm; PGP::PacketTimeEncode(ct, tm); b.insert(b.end(), tm.begin(), tm.end()); b.insert(b.end(), issuer.begin(), issuer.end());
+			b.push_back(TMCG_OPENPGP_PKALGO_DSA); b.push_back(ha); b.insert(b.end(), left.begin(), left.end()); PGP::PacketMPIEncode(r, b); PGP::PacketMPIEncode(s2, b);
+			PGP::PacketTagEncode(2, pkt); PGP::PacketLengthEncode(b.size(), pkt); pkt.insert(pkt.end(), b.begin(), b.end());
+		} else {
+			if (version == 4) PGP::PacketSigPrepareDetachedSignature((tmcg_openpgp_signature_t)type, TMCG_OPENPGP_PKALGO_DSA, (tmcg_openpgp_hashalgo_t)ha, ct, gen().below(2000), gen().coin() ? "" : "pol", issuer, hashed);
+			else PGP::PacketSigPrepareDetachedSignatureV5((tmcg_openpgp_signature_t)type, TMCG_OPENPGP_PKALGO_DSA, (tmcg_openpgp_hashalgo_t)ha, ct, gen().below(2000), "", issuer, hashed);
+			PGP::PacketSigEncode(hashed, left, r, s2, pkt);
+		}
+		TMCG_OpenPGP_Signature *sig = NULL;
+		if (!PGP::SignatureParse(pkt, 0, sig) || !sig) { if (version != 3) propfail("verify-parse", "prepared version " + std::to_string(version) + " signature does not parse"); continue; }
+		bool lit = gen().coin(); std::string fn = S(gen_text(gen().below(12))); for (auto &c : fn) if (!c) c = 'f'; uint32_t ts = gen().below(1UL << 31); int fmt = lit ? (type ? 0x74 : 0x62) : 0;
+		g_cap = true; g_hash_in.clear();
+		if (lit) sig->VerifyData(key, data, fmt, fn, ts, 0); else sig->VerifyData(key, data, 0);
+		g_cap = false;
+		oct meta; if (version == 5) { if (lit) { meta.push_back(fmt); meta.push_back(fn.size()); meta.insert(meta.end(), fn.begin(), fn.end()); oct tm; PGP::PacketTimeEncode(ts, tm); meta.insert(meta.end(), tm.begin(), tm.end()); } else meta = oct(6, 0); }
+		Rec("hin_verify").d(version).d(type).u(sig->pkalgo).u(sig->hashalgo).b(S(sig->hspd)).u((unsigned long)sig->creationtime).b(S(meta)).b(S(data)).b(g_hash_in);
+		delete sig; g_cases++;
+	}
+	gcry_sexp_release(key); gcry_mpi_release(p); gcry_mpi_release(q); gcry_mpi_release(g); gcry_mpi_release(y); gcry_mpi_release(r); gcry_mpi_release(s2);
+}
+
 // CheckValidity verdicts for the model: packets with arbitrary MPIs (no signing needed)
 static void validity_records() {
 	gcry_mpi_t r = gcry_mpi_new(64), s = gcry_mpi_new(64); gcry_mpi_set_ui(r, 0x123456789UL); gcry_mpi_set_ui(s, 0x1234567UL);
@@ -748,7 +781,7 @@ int main(int argc, char **argv) {
 	gcry_control(GCRYCTL_INITIALIZATION_FINISHED, 0);
 	std::string part = args.only;
 	auto on = [&](const char *p) { return part.empty() || part == p; };
-	if (on("hash")) hash_records();
+	if (on("hash")) { hash_records(); verify_hash_records(); }
 	if (on("validity")) validity_records();
 	if (on("sig-rsa")) { Key k; k.name = "rsa"; k.pkalgo = TMCG_OPENPGP_PKALGO_RSA; k.params = "ne"; k.pubfmt = "(public-key (rsa (n %M) (e %M)))";
 		if (!genkey(k, "(genkey (rsa (nbits 4:2048)(transient-key)))")) propfail("keygen", "cannot generate RSA key"); else { sig_suite(k); keyblock_suite(k, k); } }
